@@ -83,3 +83,23 @@ Definition opens_file (r : recipe) : bool :=
 
 Definition asgi_vanished (r : recipe) : list event := firstn 1 (fst (asgi_full r None)).
 Definition wsgi_vanished (r : recipe) : list wevent := firstn 1 (fst (wsgi_full r)).
+
+(* ---------- the file response's constructor and the name it is given ---------- *)
+
+(* FileResponse.__init__ stores the generated headers through MutableHeaders.update, i.e. through
+   __setitem__, which refuses CR, LF and NUL (baize/datastructures.py).  The Content-Disposition value
+   carries the download name (or the file's base name): verbatim inside filename="..." when the name is
+   Latin-1, and percent-encoded (urllib.parse.quote, an input here) in filename*=.  A name outside
+   Latin-1 travels percent-encoded only (baize/responses.py generate_common_headers). *)
+Definition setitem_refuses (v : bytes) : bool :=
+  existsb (fun c => N.eqb c 10 || N.eqb c 13 || N.eqb c 0) v.
+
+Definition is_latin1 (s : bytes) : bool := forallb (fun c => N.ltb c 256) s.
+
+Definition disposition (name quoted : bytes) : bytes :=
+  if is_latin1 name
+  then lit "attachment; filename=""" ++ name ++ lit """; filename*=utf-8''" ++ quoted
+  else lit "attachment; filename*=utf-8''" ++ quoted.
+
+(* true: the constructor raises ValueError; false: the response is built with this header value *)
+Definition file_ctor_refuses (name quoted : bytes) : bool := setitem_refuses (disposition name quoted).
